@@ -87,8 +87,9 @@ impl<'ast> Visit<'ast> for Facts {
         let kind = if pat.contains("Eval::Return(") {
             Some(("return".to_string(), String::new()))
         } else if let Some(pos) = pat.find("Continuation::") {
-            let rest = &pat[pos + "Continuation::".len()..];
-            let name: String = rest.chars().take_while(|c| c.is_alphanumeric()).collect();
+            let _ = pos;
+            // every continuation the arm accepts (an or-pattern names several), in source order
+            let name: String = pat.split("Continuation::").skip(1).map(|rest| rest.chars().take_while(|c| c.is_alphanumeric()).collect::<String>()).collect::<Vec<_>>().join("|");
             // inputs pattern = what follows the continuation inside Eval::Continue(.., <pat>)
             let inputs = if pat.contains("Eval::Continue(") {
                 let inner = &pat[pat.find("Eval::Continue(").unwrap() + "Eval::Continue(".len()..pat.len() - 1];
